@@ -18,6 +18,8 @@ import (
 	"github.com/buildbarn/bb-storage/pkg/digest"
 	"github.com/buildbarn/bb-storage/pkg/filesystem"
 	"github.com/buildbarn/bb-storage/pkg/filesystem/path"
+
+	"google.golang.org/grpc/status"
 )
 
 // ---------------------------------------------------------------------------
@@ -39,6 +41,12 @@ type node struct {
 	exec     bool
 	data     string
 	children map[string]*node
+	// alt: set on the model when a fault rewrote the file in place while it
+	// was being uploaded: the bytes it had before (data holds the bytes it
+	// has afterwards). Either digest is accepted, provided the object stored
+	// under the listed digest hashes to it.
+	alt    string
+	hasAlt bool
 }
 
 func newDir() *node                  { return &node{kind: kDir, children: map[string]*node{}} }
@@ -130,6 +138,8 @@ const (
 	faultReadDir            // ReadDir of directory location arg fails
 	faultMkdir              // Mkdir of location arg fails with EIO
 	faultLstat              // Lstat of location arg fails with EIO
+	faultRewrite            // the file at location arg is rewritten in place (same length) right after the read that delivers its last byte for the first time (= end of the digest pass of UploadFile)
+	faultStaleDigest        // every file the action creates first had other bytes of equal length and was digested (uploaded elsewhere) in that state, then rewritten in place
 )
 
 type fault struct {
@@ -138,7 +148,7 @@ type fault struct {
 }
 
 func (f fault) String() string {
-	return [...]string{"none", "put-all", "put-first", "readdir", "mkdir", "lstat"}[f.kind] + "(" + f.arg + ")"
+	return [...]string{"none", "put-all", "put-first", "readdir", "mkdir", "lstat", "rewrite-after-digest-pass", "stale-digest"}[f.kind] + "(" + f.arg + ")"
 }
 
 type world struct {
@@ -150,6 +160,7 @@ type world struct {
 	mkdirs   []string // locations passed to Mkdir (successful or EEXIST)
 	readDirs []string // directory locations on which ReadDir was called
 	lstats   []string // locations passed to Lstat
+	opened   []string // file locations opened for reading through a real build directory (racingDirectory journal; size > 0 only)
 	open     int      // directory handles handed out and not yet closed
 	misuse   []string // use after close, double close
 }
@@ -335,7 +346,15 @@ type fakeCAS struct {
 
 func casKey(hash string, size int64) string { return fmt.Sprintf("%s-%d", hash, size) }
 
+// Put behaves like a real CAS client: it does nothing for a context that is
+// already done, and it consumes the buffer completely through the buffer
+// layer - buffers that carry validation (NewCASBufferFromReader etc.) report
+// a checksum or size mismatch here and nothing is stored.
 func (c *fakeCAS) Put(ctx context.Context, dg digest.Digest, b buffer.Buffer) error {
+	if err := ctx.Err(); err != nil {
+		b.Discard()
+		return status.FromContextError(err).Err()
+	}
 	data, err := b.ToByteSlice(1 << 20)
 	if err != nil {
 		return err
